@@ -33,7 +33,7 @@ OPS = ['pause', 'resume', 'stop:SUCCESS', 'stop:ERROR', 'stop:CANCELLED',
 
 def cases(seed, tier):
     rng = random.Random('c03-%s' % seed)
-    n_prog = 48 if tier == 'quick' else 420
+    n_prog = 96 if tier == 'quick' else 600
     out = []
     for i in range(n_prog):
         prng = random.Random(rng.getrandbits(64))
